@@ -607,12 +607,13 @@ def run(plan):
                 e1 = _relerr(got1, want)
                 # float32 phase ramps: the error grows with the shift measured in scan pixels (a shift
                 # of 20 pixels on a 5-pixel scan is 60 rad of phase at Nyquist); calibrated on HEAD:
-                # <= 1e-4 up to ~5 pixels, 1.3e-4 at 21 pixels
+                # 1.01e-4 at 5 pixels is the worst of 350 000 thorough runs, 1.3e-4 at 21 pixels;
+                # demanded: 2e-4 x max(1, shift / 5 px) (a wrong sign, axis or pixel gives 1e-2 .. 1)
                 ssx, ssy = plan.get("ss", [0.5, 0.5])
                 s_pix = float(max(np.abs(sx).max() / ssx, np.abs(sy).max() / ssy))
                 if s_pix > 5:
                     bump(probes, "parallax_shift_gt_5_pixels")
-                if not e1 <= 1e-4 * max(1.0, s_pix / 5.0):
+                if not e1 <= 2e-4 * max(1.0, s_pix / 5.0):
                     viol("parallax_shift_limit", f"aberrations {ab}: parallax deviates from the sum "
                          f"of geometrically shifted images by {e1:.3g}",
                          "parallax_shift_limit:" + ("astig" if C12 else "defocus"))
@@ -629,7 +630,7 @@ def run(plan):
                         got1c = D1c.reconstruct(deconvolution_kernel="prlx", parallax_flip_phase=False,
                                                 max_batch_size=b).corrected_bf.detach().numpy()
                         e1c = _relerr(got1c, want)
-                        if not e1c <= 1e-4 * max(1.0, s_pix / 5.0):
+                        if not e1c <= 2e-4 * max(1.0, s_pix / 5.0):
                             viol("parallax_shift_limit", f"aberrations {ab}, instance built with "
                                  f"crop_bf_mask=True (padding {cr['pad']}, mask {plan.get('mask_kind')} "
                                  f"{mask.shape} -> {tuple(D1c.bf_mask.shape)}): parallax deviates from the "
